@@ -106,7 +106,7 @@ def run_writer(item):
     readers.clear_caches()
     if r.status != 'ok' or not fs.exists(OUT):
         return None, None
-    return fs.image(OUT), [e for e in fs.oslog if e[1] == OUT]
+    return fs.image(OUT), list(fs.oslog)
 
 
 # --------------------------------------------------------------------------------------------
@@ -161,21 +161,25 @@ def crash_images(oslog, final, m, rng, exhaustive=False, max_images=None):
             seen.add(h)
             out.append((desc, bytes(img)))
             prio.append(p)
-    img = bytearray()
+    # the whole simulated disk is replayed (the writer may write a temporary file and rename it);
+    # a crash image is the content of the output path at that instant, if it exists at all
+    files = {}
     k = 0
     for entry in oslog:
-        if entry[3] == 'trunc':
-            storage.SimFS.apply(img, entry)
+        if entry[3] in ('trunc', 'fsync'):
+            storage.SimFS.apply_fs(files, entry)
             continue
-        emit(['prefix', k], img, 0)
-        n = len(entry[5])
-        for c in _cuts(entry[4], n, rng):
-            t = bytearray(img)
-            storage.SimFS.apply(t, entry, upto=c)
-            emit(['torn', k, c], t, 0 if (c in (1, n - 1) or n < 2048) else 1)
-        storage.SimFS.apply(img, entry)
+        if OUT in files:
+            emit(['prefix', k], files[OUT], 0)
+        if entry[3] == 'write' and entry[1] == OUT:
+            n = len(entry[5])
+            for c in _cuts(entry[4], n, rng):
+                t = bytearray(files.get(OUT, b''))
+                storage.SimFS.apply(t, entry, upto=c)
+                emit(['torn', k, c], t, 0 if (c in (1, n - 1) or n < 2048) else 1)
+        storage.SimFS.apply_fs(files, entry)
         k += 1
-    if bytes(img) != final:
+    if bytes(files.get(OUT, b'')) != final:
         raise core.HarnessError('OS-level write log does not rebuild the final file')
     size = len(final)
     bounds = set(section_boundaries(m, size))
@@ -205,19 +209,20 @@ def crash_images(oslog, final, m, rng, exhaustive=False, max_images=None):
 def rebuild_image(oslog, final, desc):
     if desc[0] == 'trunc':
         return final[:desc[1]]
-    img = bytearray()
+    files = {}
     k = 0
     for entry in oslog:
-        if entry[3] == 'trunc':
-            storage.SimFS.apply(img, entry)
+        if entry[3] in ('trunc', 'fsync'):
+            storage.SimFS.apply_fs(files, entry)
             continue
         if k == desc[1]:
+            img = bytearray(files.get(OUT, b''))
             if desc[0] == 'torn':
                 storage.SimFS.apply(img, entry, upto=desc[2])
             return bytes(img)
-        storage.SimFS.apply(img, entry)
+        storage.SimFS.apply_fs(files, entry)
         k += 1
-    return bytes(img)
+    return bytes(files.get(OUT, b''))
 
 
 # --------------------------------------------------------------------------------------------
@@ -250,7 +255,7 @@ def eval_image(img, opener, calls, truth, m):
             got = readers.fresh_outcome(fs, opener, call)
             n[0] += 1
             want = truth[(kind, repr(call))]
-            if got[0] == 'exc' or got == want:
+            if battery.acceptable(got, want):
                 continue
             sec = 'none'
             for (_, _, _, off, req, ret, _) in fs.reqlog:
@@ -300,7 +305,7 @@ def one_item(ctx, item):
         rec['skipped'] = 'degenerate axes'
         return rec
     rec['layout'] = f"{m['kind']}/{m['layout']}"
-    rec['os_writes'] = len(oslog)
+    rec['os_writes'] = sum(1 for e in oslog if e[3] not in ('trunc', 'fsync'))
     calls = calls_for(m, core.stream(seed, item['id'], 'workload'), ctx['n_extra'])
     truth = readers.truth_table(final, {'reader': [c for c in calls if not c[0].startswith('em_')],
                                         'emulator': calls})
